@@ -23,7 +23,7 @@ const pkgCT = "ctrlers/types"
 var payloadTypes = []string{"TrxPayloadProposal", "TrxPayloadVoting", "TrxPayloadSetDoc", "TrxPayloadUnstaking", "TrxPayloadWithdraw", "TrxPayloadContract", "TrxPayloadStaking", "TrxPayloadAssetTransfer"}
 
 func checkC03(w *World, r *Report) {
-	r.Explanation = "Structural clause of C03: (S-1) VerifyTrxRLP(ctx.Tx, ctx.ChainID) is called on the ctx.Exec branch of commonValidation0, its error is returned, no success return of commonValidation0/validateTrx/ExecuteSync bypasses it before runTrx, DeliverTx builds its context with exec=true and every TrxContext.ChainID comes from the node's chain id; (S-2) VerifyTrxRLP compares the full recovered address with tx.From and fails on inequality, the pre-image is prefix(chainId, len) ++ RLP(tx) of the same tx, Sig2Addr recovers from DefaultHash(pre-image) and the tx's own signature; (S-3) Trx.EncodeRLP places every Trx field in the encoded struct and every payload EncodeRLP reads every field of its struct; (S-4) every integer conversion on the way into the pre-image is width-preserving or widening, 256-bit values enter as Bytes(), payloads are RLP lists/items, never concatenations; (S-5) Trx.fromProto fills every Trx field from the like-named wire field, and fromProto, DecodeRLP and the payload codecs agree type by type. Under the fact that validateTrx reported an error no path of ExecuteSync / executionRoutine carries an effect (S-1 no-effect-when-validation-fails): the sender of a transaction whose signature check failed is only a claim."
+	r.Explanation = "Structural clause of C03: (S-1) VerifyTrxRLP(ctx.Tx, ctx.ChainID) is called on the ctx.Exec branch of commonValidation0, its error is returned, no success return of commonValidation0/validateTrx/ExecuteSync bypasses it before runTrx, DeliverTx builds its context with exec=true and every TrxContext.ChainID comes from the node's chain id; (S-2) VerifyTrxRLP compares the full recovered address with tx.From and fails on inequality, the pre-image is prefix(chainId, len) ++ RLP(tx) of the same tx, Sig2Addr recovers from DefaultHash(pre-image) and the tx's own signature; (S-3) Trx.EncodeRLP places every Trx field in the encoded struct and every payload EncodeRLP reads every field of its struct; (S-4) every integer conversion on the way into the pre-image is width-preserving or widening, 256-bit values enter as Bytes(), payloads are RLP lists/items, never concatenations; (S-5) Trx.fromProto fills every Trx field from the like-named wire field, and fromProto, DecodeRLP and the payload codecs agree type by type. Under the fact that validateTrx reported an error no path of ExecuteSync / executionRoutine carries an effect (S-1 no-effect-when-validation-fails): the sender of a transaction whose signature check failed is only a claim. S-4 also requires, per encoder, that no byte slice is squeezed into a fixed-size array (BytesToHash, BytesToAddress), converted to an array pointer or cut with an upper bound on the way into the signed encoding."
 	r.NotCovered = "strength of secp256k1/SHA-256 and go-ethereum's SigToPub/rlp internals; chain ids containing the prefix's delimiter; malleability of the tx hash (not part of the statement)."
 	s1(w, r)
 	s2(w, r)
@@ -32,7 +32,7 @@ func checkC03(w *World, r *Report) {
 	r.Floor("S-1", 7, "verification placement")
 	r.Floor("S-2", 7, "verification content")
 	r.Floor("S-3", 11+6, "Trx fields + payload encoders")
-	r.Floor("S-4", 5, "conversions and encodings")
+	r.Floor("S-4", 10, "conversions and encodings")
 	r.Floor("S-5", 11+6, "fromProto fields + codec agreement")
 }
 
@@ -686,6 +686,54 @@ func s3s4(w *World, r *Report) {
 			}
 		}
 	}
+	// variable-length byte fields enter at full length: no call that squeezes a
+	// byte slice into a fixed-size array (common.BytesToHash keeps the last 32
+	// bytes, BytesToAddress the last 20) and no slicing with an upper bound on
+	// the way into the signed encoding — two transactions that differ only in the
+	// dropped bytes would share one signature while execution sees the full value
+	for _, fn := range encFns {
+		bad := ""
+		var scan func(g *ssa.Function, d int)
+		seenF := map[*ssa.Function]bool{}
+		scan = func(g *ssa.Function, d int) {
+			if g == nil || g.Blocks == nil || seenF[g] || d > 2 {
+				return
+			}
+			seenF[g] = true
+			for _, b := range g.Blocks {
+				for _, in := range b.Instrs {
+					switch x := in.(type) {
+					case *ssa.Call:
+						cal := x.Common().StaticCallee()
+						if cal == nil {
+							continue
+						}
+						if w.InModule(cal) && cal.Pkg == g.Pkg {
+							scan(cal, d+1)
+							continue
+						}
+						if isFixedByteArray(x.Type()) {
+							for _, a := range x.Common().Args {
+								if isByteSlice(a.Type()) && bad == "" {
+									bad = w.Canon(x) + " (" + w.InstrPos(x) + ")"
+								}
+							}
+						}
+					case *ssa.SliceToArrayPointer:
+						if bad == "" {
+							bad = w.Canon(x) + " (" + w.InstrPos(x) + ")"
+						}
+					case *ssa.Slice:
+						if x.High != nil && isByteSlice(x.X.Type()) && strings.Contains(w.Canon(x.X), "recv.") && bad == "" {
+							bad = w.Canon(x) + " (" + w.InstrPos(x) + ")"
+						}
+					}
+				}
+			}
+		}
+		scan(fn, 0)
+		r.Check(bad == "", "S-4", w.FName(fn)+":bytes-at-full-length", "no byte slice is squeezed into a fixed-size array or cut with an upper bound on the way into the signed encoding", "a variable-length byte field is truncated before signing (the dropped bytes are executed but not signed): "+bad, fnSite(w, fn))
+	}
 	// 256-bit values enter as Bytes()
 	if efn := w.Method(pkgCT, "Trx", "EncodeRLP"); efn != nil {
 		for _, fs := range w.fieldStores(efn) {
@@ -1151,4 +1199,22 @@ func (w *World) preImageShape(pf *ssa.Function) (bool, string) {
 		}
 	}
 	return true, ""
+}
+
+func isByteSlice(t types.Type) bool {
+	sl, ok := t.Underlying().(*types.Slice)
+	if !ok {
+		return false
+	}
+	b, ok := sl.Elem().Underlying().(*types.Basic)
+	return ok && b.Kind() == types.Uint8
+}
+
+func isFixedByteArray(t types.Type) bool {
+	ar, ok := t.Underlying().(*types.Array)
+	if !ok {
+		return false
+	}
+	b, ok := ar.Elem().Underlying().(*types.Basic)
+	return ok && b.Kind() == types.Uint8
 }
